@@ -118,7 +118,16 @@ impl Ctx {
     /// Wait until every other simulated thread (background threads of closed stores and their
     /// blocking children) has exited; simulated time may pass.
     pub fn join_others(&self) {
+        if self.sim.abandoned.load(std::sync::atomic::Ordering::SeqCst) {
+            return;
+        }
         self.sim.join_all_others(self.me);
+    }
+
+    /// A verdict has been reached and some simulated thread will never finish: stop waiting for
+    /// threads; the worker process reports this run and is then replaced.
+    pub fn abandon(&self) {
+        self.sim.abandoned.store(true, std::sync::atomic::Ordering::SeqCst);
     }
 
     pub fn finish(mut self) -> RunOut {
@@ -1877,6 +1886,12 @@ pub fn run_fault_one(ctx: &mut Ctx, scn: &StoreScn) {
         i += 1;
     }
     fsim::set_op_tag(0);
+    if let Some(s) = store.as_ref() {
+        let (avail, cap) = s.h.verif_readers();
+        if avail != cap && ctx.out.violations.is_empty() {
+            ctx.viol("reader-pool-reduced", format!("after the faulted run only {} of {} pool readers are available (fault #{} errno {} in {:?})", avail, cap, nth, errno, fault_op), "");
+        }
+    }
     drop(store);
     ctx.join_others();
     if std::env::var("BCSIM_DEBUG").is_ok() {
